@@ -128,6 +128,10 @@ fn run(ctx: &Ctx) -> Run {
         }
         let n = ctx.n(400_000, 10_000_000) / threads as u64;
         for _ in 0..n {
+            // error paths must leave nothing behind: now and then a few rejected calls precede the judged ones
+            if rng.below(64) == 0 {
+                crate::orc::failed_call_history(&mut rng);
+            }
             let (list, target) = random_list(&mut rng);
             run.count(&format!("target.{:+03}", target));
             check_uncompact(run, &list, target);
